@@ -5,6 +5,7 @@
 -/
 import Csvq.Lemmas.Cursor
 import Csvq.Lemmas.CursorLocks
+import Csvq.Lemmas.CursorBlocks
 import Csvq.Gen.CursorLoop
 import Csvq.Ref.CursorOps
 namespace Csvq.C16
@@ -1029,5 +1030,100 @@ example : (openRe [[("CUR", (CState.closed : CState Nat))]] "cur" [1, 2, 3] 1 [.
 
 example : (runSched (CState.opened [10, 20, 30] (-1) false) ["a", "b", "b", "a", "b"]).2
     = [("a", some 10), ("b", some 20), ("b", some 30), ("a", none), ("b", none)] := by decide
+
+
+/-! # the DECLARE position: a cursor declared in a block ends with the block
+
+  Every construct that opens a block runs its statements on `[] :: st` and drops the block afterwards (`runItem`,
+  `runNested`, `loopS`, `openRe`'s function body): the theorems are about `runOps ([] :: st) ops` for ALL statement
+  lists, so they hold for every construct alike — which constructs those are is read from the regenerated block
+  handling of processor.go (Gen.Scope.blockHandling, extract/scopefacts). -/
+
+/-- T-gen: every branch of IF / ELSEIF / ELSE and of CASE … WHEN / ELSE runs through `executeChild` (two call sites
+    each: the matching branch inside the loop, the ELSE branch after it) and none through a bare `proc.execute`
+    (seed C16-m17: the ELSE branch of CASE); `executeChild` makes a child processor, runs the statements in it and
+    closes its block on every path; WHILE and WHILE … IN create one child processor, clear its block at the top of
+    every iteration, run the body in it and close it by `defer`; a function body runs in `scope.CreateChild()`,
+    closed by `defer` -/
+theorem gen_every_block_construct_opens_a_child_block :
+    countTok "proc.executeChild" (blockCalls "Processor.IfStmt") = 2 ∧ countTok "proc.execute" (blockCalls "Processor.IfStmt") = 0
+    ∧ countTok "proc.executeChild" (blockCalls "Processor.Case") = 2 ∧ countTok "proc.execute" (blockCalls "Processor.Case") = 0
+    ∧ blockCalls "Processor.executeChild" = ["proc.NewChildProcessor", "child.execute", "if{", "}", "child.Close", "return flow,err"]
+    ∧ (blockCalls "Processor.While").take 4 = ["proc.NewChildProcessor", "defer childProc.Close", "for{", "childProc.ReferenceScope.ClearCurrentBlock"]
+    ∧ countTok "childProc.execute" (blockCalls "Processor.While") = 1 ∧ countTok "proc.execute" (blockCalls "Processor.While") = 0
+    ∧ (blockCalls "Processor.WhileInCursor").take 4 = ["proc.NewChildProcessor", "defer childProc.Close", "for{", "childProc.ReferenceScope.ClearCurrentBlock"]
+    ∧ countTok "childProc.execute" (blockCalls "Processor.WhileInCursor") = 1 ∧ countTok "proc.execute" (blockCalls "Processor.WhileInCursor") = 0
+    ∧ (blockCalls "UserDefinedFunction.Execute").take 3 = ["scope.CreateChild", "defer childScope.CloseCurrentBlock", "fn.execute"]
+    ∧ (blockCalls "UserDefinedFunction.ExecuteAggregate").take 2 = ["scope.CreateChild", "defer childScope.CloseCurrentBlock"] := by
+  decide
+
+/-- the statements that open a block are dispatched to exactly those methods -/
+theorem gen_block_statements_dispatch :
+    Gen.Scope.dispatch.lookup "parser.If" = some "proc.IfStmt" ∧ Gen.Scope.dispatch.lookup "parser.Case" = some "proc.Case"
+    ∧ Gen.Scope.dispatch.lookup "parser.While" = some "proc.While"
+    ∧ Gen.Scope.dispatch.lookup "parser.WhileInCursor" = some "proc.WhileInCursor" := by decide
+
+section blocks
+variable {α : Type}
+
+/-- whatever a block does (all statement lists, all stacks): a name that no enclosing block knows is unknown again
+    when the block is gone — its DECLAREs went into the block, nothing adds a name to the blocks below -/
+theorem block_declarations_end_with_block (st : Stack α) (ops : List (Op α)) (k : String) (h : lookupS st k = none) :
+    lookupS (runOps ([] :: st) ops).1.tail k = none := by
+  obtain ⟨b', rest', h1, h2⟩ := runOps_cons ops [] st k h
+  rw [h1]
+  exact h2
+
+/-- so every cursor statement on that name after the block is the "undeclared" error … -/
+theorem cursor_declared_in_block_is_undeclared_after (st : Stack α) (ops : List (Op α)) (n : String) (op : Op α)
+    (hop : op.chainKey = some (key n)) (h : lookupS st (key n) = none) :
+    stepS (runItem 0 st (.sub none (.declare n :: ops))).1 op
+      = ((runItem 0 st (.sub none (.declare n :: ops))).1, .err .undeclared) := by
+  apply stepS_undeclared _ op (key n) hop
+  simp only [runItem]
+  exact block_declarations_end_with_block st (.declare n :: ops) (key n) h
+
+/-- … and the name can be declared anew at top level -/
+theorem cursor_declared_in_block_can_be_redeclared_after (s : Scope α) (ops : List (Op α)) (n : String)
+    (h : lookup s (key n) = none) :
+    ∃ s', (runItem 0 [s] (.sub none (.declare n :: ops))).1 = [s'] ∧ (step s' (.declare n)).2 = .ok := by
+  have hS : lookupS [s] (key n) = none := by simp [lookupS, h]
+  obtain ⟨b', rest', h1, h2⟩ := runOps_cons (.declare n :: ops) [] [s] (key n) hS
+  -- the stack keeps its height: one block below the dropped one
+  have hl := runOps_length (.declare n :: ops) ([] :: [s])
+  rw [h1] at hl
+  match rest', hl, h2 with
+  | [s'], _, h2 =>
+    refine ⟨s', by simp [runItem, h1], ?_⟩
+    have : lookup s' (key n) = none := by
+      simpa [lookupS] using (lookupS_none_cons s' [] (key n)).mp h2
+    simp [step, this]
+
+/-- a block that declares nothing between two blocks is invisible: the same statements give the same results and
+    leave the same blocks (the harness renders one block in five with a second construct around it) -/
+theorem empty_block_is_transparent (b : Scope α) (rest : Stack α) (ops : List (Op α)) :
+    runOps (b :: [] :: rest) ops = (insertEmpty (runOps (b :: rest) ops).1, (runOps (b :: rest) ops).2) :=
+  runOps_insertEmpty ops b rest
+
+/-- an inner block alone in an outer block is one block -/
+theorem nested_block_alone_is_one_block (st : Stack α) (inner : List (Op α)) :
+    runNested st [] inner [] = ((runOps ([] :: st) inner).1.tail, (runOps ([] :: st) inner).2) := by
+  have h := runOps_insertEmpty inner [] st
+  obtain ⟨b', rest', hs⟩ := runOps_shape inner [] st
+  simp only [insertEmpty] at h
+  simp only [runNested, runOps]
+  rw [h, hs]
+  generalize (runOps ([] :: st) inner).2 = r
+  obtain ⟨rs, e⟩ := r
+  cases e <;> simp [insertEmpty, runOps]
+
+end blocks
+
+example : (runNested [[("CUR", CState.opened [1, 2, 3] 0 true)]] [.declare "cur", .open "cur" [7, 8], .fetch "cur" .next]
+      [.declare "cur", .open "cur" [9], .fetch "cur" .next] [.fetch "cur" .next, .count "CUR"])
+    = ([[("CUR", .opened [1, 2, 3] 0 true)]], [.ok, .ok, .row 7, .ok, .ok, .row 9, .row 8, .int 2], false) := rfl
+
+example : (stepS (runItem 0 [[("CUR", CState.opened [1, 2, 3] 0 true)]] (.sub none [.declare "cur", .open "cur" [7, 8], .fetch "cur" .next])).1
+      (.fetch "cur" .next)).2 = .row 2 := rfl
 
 end Csvq.C16
